@@ -152,6 +152,49 @@ theorem resolveH_no_alias (look : Look) (m : HMWE) (h : Cells) (hv : Valid h m) 
         · simp only [List.length_append, List.length_cons, List.length_nil] at h1
           omega
 
+/-! ## `ToMappingWithEquals` -/
+
+theorem toMWEH_heap (m : List (Key × Str)) (h : Cells) : (toMWEH m h).2 = h ++ m.map Prod.snd := by
+  induction m generalizing h with
+  | nil => simp [toMWEH]
+  | cons p r ih =>
+    obtain ⟨k, v⟩ := p
+    simp only [toMWEH, ih, List.map_cons, List.append_assoc, List.singleton_append]
+
+theorem toMWEH_addrs (m : List (Key × Str)) (h : Cells) : addrs (toMWEH m h).1 = List.range' h.length m.length := by
+  induction m generalizing h with
+  | nil => simp [toMWEH, addrs]
+  | cons p r ih =>
+    obtain ⟨k, v⟩ := p
+    have := ih (h ++ [v])
+    simp only [addrs, List.length_append, List.length_cons, List.length_nil] at this
+    simp only [toMWEH, addrs, List.filterMap_cons, List.length_cons, List.range'_succ, this]
+
+/-- **toMWEH_refines.**  Following the pointers of `ToMappingWithEquals`'s result gives the value model `toMWE`. -/
+theorem toMWEH_refines (m : List (Key × Str)) (h : Cells) : deref (toMWEH m h).2 (toMWEH m h).1 = toMWE m := by
+  induction m generalizing h with
+  | nil => rfl
+  | cons p r ih =>
+    obtain ⟨k, v⟩ := p
+    have := ih (h ++ [v])
+    simp only [toMWEH, deref, List.map_cons, toMWE] at this ⊢
+    rw [this, toMWEH_heap]
+    simp
+
+/-- **toMWEH_fresh_no_alias.**  Every key gets a cell allocated by this call (old cells are not written, nothing that
+    existed before is pointed to) and no two keys share one. -/
+theorem toMWEH_fresh_no_alias (m : List (Key × Str)) (h : Cells) :
+    NoAlias (toMWEH m h).1 ∧ (∀ a ∈ addrs (toMWEH m h).1, h.length ≤ a ∧ a < (toMWEH m h).2.length) ∧
+    (∀ a, a < h.length → (toMWEH m h).2[a]? = h[a]?) := by
+  refine ⟨?_, fun a ha => ?_, fun a ha => ?_⟩
+  · rw [NoAlias, toMWEH_addrs]
+    exact List.nodup_range'
+  · rw [toMWEH_addrs, List.mem_range'_1] at ha
+    rw [toMWEH_heap]
+    simp only [List.length_append, List.length_map]
+    omega
+  · rw [toMWEH_heap, List.getElem?_append_left ha]
+
 namespace Example
 /-- two value-less keys with different project-environment values, one key with a value in cell 0 -/
 def m0 : HMWE := [(['A'], none), (['K'], some 0), (['B'], none), (['C'], none)]
@@ -165,6 +208,7 @@ example : Valid h0 m0 ∧ NoAlias m0 := by
   decide
 example : resolveH look0 m0 h0 = ([(['A'], some 1), (['K'], some 0), (['B'], some 2), (['C'], none)], [['k'], ['a'], ['b']]) := by
   decide
+example : toMWEH [(['A'], ['1']), (['B'], ['2'])] [['k']] = ([(['A'], some 1), (['B'], some 2)], [['k'], ['1'], ['2']]) := by decide
 end Example
 
 end CV.EnvLayers.Heap
